@@ -404,6 +404,8 @@ func runC14(r *Report) {
 	ruleValueBuffersImmutable(r)
 	ruleSentinelProducible(r, "memstore", "simpledb")
 	ruleCreateTruncates(r)
+	// (the flushed table is written through the buffered writer: bytes must reach the file in the order they were written)
+	ruleBufferedOrder(r)
 	for _, k := range []string{"memstore.MemStore.Get", "memstore.MemStore.Contains", "memstore.MemStore.IsTombstoned", "memstore.deleteInternal", "memstore.upsertInternal", "memstore.MemStore.Tombstone"} {
 		if fn := p.Func(k); fn != nil {
 			ruleMemLookup(r, fn)
